@@ -217,3 +217,104 @@ Theorem C11_dt_truncate_before_zone_refuted :   (* monotonicity fails for trunca
               dt_changed None 0 a b = false /\ dt_changed (Some UHour) 0 a b = true.
 Proof. exact dt_trunc_before_tz_refuted. Qed.
 Print Assumptions C11_dt_truncate_before_zone_refuted.
+
+(** * The same three clauses over the EXTENDED universe (Options/XValue.v, XModel.v):
+      floats are arbitrary dyadic rationals m/2^e (so numeric perturbations below
+      significant_digits / math_epsilon live inside structures), datetimes are atoms
+      (leaves, dict keys, set members), and the options record has truncate_datetime
+      and default_timezone.  Names are qualified with the X modules; [XModel.run_optF]
+      has the same dispatcher as [run_optF].  (X model and old model are tied to the
+      implementation separately by correspondence; there is no Coq embedding theorem.) *)
+From DD Require Options.XValue Options.XModel Options.XProofsBase Options.XProofsAtoms Options.XProofsKeys
+  Options.XProofsLists Options.XProofsAlt Options.XProofsSafe Options.XProofsMono Options.XProofsRun Options.XProofsWitness.
+
+Theorem C11x_leaf_alt_empty : forall udiff F a b p1 p2,
+  XProofsAtoms.altL F a b = true -> XModel.diff_atomF udiff F a b p1 p2 = [].
+Proof. exact XProofsAtoms.diff_atomF_altL. Qed.
+Print Assumptions C11x_leaf_alt_empty.
+
+Theorem C11x_set_member_alt_same_hash : forall F a b, XProofsAtoms.altS F a b = true -> XModel.hatomF F a = XModel.hatomF F b.
+Proof. exact XProofsAtoms.hatomF_altS. Qed.
+Print Assumptions C11x_set_member_alt_same_hash.
+
+Theorem C11x_alt_empty_partial :
+  forall F c udiff ops,
+  XValue.thr_num c <= XValue.thr_den c ->
+  (XValue.zip c = true \/ (XModel.o_excl F = [] /\ forall p xs ys, XProofsLists.tiles (ops p xs ys) 0 0 (length xs) (length ys) = true)) ->
+  forall t1 t2, XProofsAlt.alt F c t1 t2 -> XProofsAlt.guard F c t1 = true -> XProofsAlt.guard F c t2 = true ->
+  XModel.run_optF udiff ops c F t1 t2 = XModel.Ok ([], []).
+Proof. exact XProofsAlt.alt_empty_run. Qed.
+Print Assumptions C11x_alt_empty_partial.
+
+Theorem C11x_copy_empty_partial :
+  forall F c udiff ops,
+  XValue.thr_num c <= XValue.thr_den c ->
+  (XValue.zip c = true \/ (XModel.o_excl F = [] /\ forall p xs ys, XProofsLists.tiles (ops p xs ys) 0 0 (length xs) (length ys) = true)) ->
+  forall t1 t2, XProofsRun.copy F c t1 t2 -> XProofsAlt.guard F c t1 = true -> XProofsAlt.guard F c t2 = true ->
+  XModel.run_optF udiff ops c F t1 t2 = XModel.Ok ([], []).
+Proof. exact XProofsRun.copy_empty_run. Qed.
+Print Assumptions C11x_copy_empty_partial.
+
+Theorem C11x_monotone_partial :
+  forall F c udiff ops,
+  XValue.thr_num c <= XValue.thr_den c ->
+  (XValue.zip c = true \/ (XModel.o_excl F = [] /\ forall p xs ys, XProofsLists.tiles (ops p xs ys) 0 0 (length xs) (length ys) = true)) ->
+  (forall p q xs ys, ops p xs ys = ops q xs ys) ->
+  forall KU SU LU : XValue.atom -> Prop,
+  (XModel.cleaning F = true -> forall k k', KU k -> KU k' -> XValue.py_eq k k' = true -> XValue.atom_ty k = XValue.atom_ty k') ->
+  (forall x y, SU x -> SU y -> XModel.hatomF XModel.no_opts x = XModel.hatomF XModel.no_opts y -> x = y) ->
+  (forall u1 o1 u2 o2, LU (XValue.ADt u1 o1) -> LU (XValue.ADt u2 o2) ->
+     dt_changed None 0 (mkDt u1 o1) (mkDt u2 o2) = false -> XValue.ADt u1 o1 = XValue.ADt u2 o2) ->
+  forall t1 t2 r,
+  XModel.run_optF udiff ops c XModel.no_opts t1 t2 = XModel.Ok ([], r) ->
+  XProofsAlt.guard F c t1 = true -> XProofsAlt.guard F c t2 = true ->
+  XProofsMono.atoms_in KU SU LU t1 -> XProofsMono.atoms_in KU SU LU t2 ->
+  XModel.run_optF udiff ops c F t1 t2 = XModel.Ok ([], []).
+Proof. exact XProofsRun.monotone_run. Qed.
+Print Assumptions C11x_monotone_partial.
+
+Theorem C11x_no_new_raise_partial :
+  forall F c udiff ops t1 t2 r,
+  XModel.run_optF udiff ops c XModel.no_opts t1 t2 = XModel.Ok r ->
+  XProofsSafe.safe F t1 = true -> XProofsSafe.safe F t2 = true -> exists r', XModel.run_optF udiff ops c F t1 t2 = XModel.Ok r'.
+Proof. exact XProofsRun.no_new_raise_run. Qed.
+Print Assumptions C11x_no_new_raise_partial.
+
+(* refuted: datetime options at keys / in sets, truncation before the zone, datetime keys under key cleaning *)
+Theorem C11x_datetime_key_raises_refuted :
+  exists a, XProofsWitness.xrun XProofsWitness.xcdef XModel.no_opts a a = XModel.Ok ([], []) /\
+            XProofsWitness.xrun XProofsWitness.xcdef (XProofsWitness.XFcase_sig 2) a a = XModel.Err XModel.EType.
+Proof. exact XProofsWitness.x_datetime_key_raises_refuted. Qed.
+Print Assumptions C11x_datetime_key_raises_refuted.
+
+Theorem C11x_truncate_key_refuted :
+  exists a b k k', a = XValue.VDict [(k, XProofsWitness.xvi 1)] /\ b = XValue.VDict [(k', XProofsWitness.xvi 1)] /\
+    XProofsAtoms.dt_full (XProofsWitness.XFtrunc UMinute) k k' = true /\
+    exists r, XProofsWitness.xrun XProofsWitness.xcdef (XProofsWitness.XFtrunc UMinute) a b = XModel.Ok r /\ fst r <> [].
+Proof. exact XProofsWitness.x_trunc_key_refuted. Qed.
+Print Assumptions C11x_truncate_key_refuted.
+
+Theorem C11x_truncate_set_refuted :
+  exists k k', XProofsAtoms.dt_full (XProofsWitness.XFtrunc UMinute) k k' = true /\
+    exists r, XProofsWitness.xrun XProofsWitness.xcdef (XProofsWitness.XFtrunc UMinute) (XValue.VSet [k]) (XValue.VSet [k']) = XModel.Ok r /\ fst r <> [].
+Proof. exact XProofsWitness.x_trunc_set_refuted. Qed.
+Print Assumptions C11x_truncate_set_refuted.
+
+Theorem C11x_default_timezone_key_refuted :
+  exists k k', XProofsAtoms.dt_full (XProofsWitness.XFtz 120) k k' = true /\
+    exists r, XProofsWitness.xrun XProofsWitness.xcdef (XProofsWitness.XFtz 120)
+                (XValue.VDict [(k, XProofsWitness.xvi 1)]) (XValue.VDict [(k', XProofsWitness.xvi 1)]) = XModel.Ok r /\ fst r <> [].
+Proof. exact XProofsWitness.x_tz_key_refuted. Qed.
+Print Assumptions C11x_default_timezone_key_refuted.
+
+Theorem C11x_truncate_before_zone_monotone_refuted :
+  exists a b, XProofsWitness.xrun XProofsWitness.xcdef XModel.no_opts a b = XModel.Ok ([], []) /\
+    exists r, XProofsWitness.xrun XProofsWitness.xcdef (XProofsWitness.XFtrunc UHour) a b = XModel.Ok r /\ fst r <> [].
+Proof. exact XProofsWitness.x_trunc_before_tz_monotone_refuted. Qed.
+Print Assumptions C11x_truncate_before_zone_monotone_refuted.
+
+Theorem C11x_default_timezone_monotone_refuted :
+  exists a b, XProofsWitness.xrun XProofsWitness.xcdef XModel.no_opts a b = XModel.Ok ([], []) /\
+    exists r, XProofsWitness.xrun XProofsWitness.xcdef (XProofsWitness.XFtz 120) a b = XModel.Ok r /\ fst r <> [].
+Proof. exact XProofsWitness.x_default_timezone_monotone_refuted. Qed.
+Print Assumptions C11x_default_timezone_monotone_refuted.
